@@ -17,6 +17,20 @@ func (cv *tagCycleValue) String() string {
 	return cv.value.String()
 }
 
+// write prints the current cycle value, escaped like any other printed value
+// if autoescape is on.
+func (node *tagCycleNode) write(ctx *ExecutionContext, writer TemplateWriter, item IEvaluator, val *Value) *Error {
+	if ctx.Autoescape && !val.safe && !item.FilterApplied("safe") {
+		escaped, err := ApplyFilter("escape", val, nil)
+		if err != nil {
+			return err
+		}
+		val = escaped
+	}
+	writer.WriteString(val.String())
+	return nil
+}
+
 func (node *tagCycleNode) Execute(ctx *ExecutionContext, writer TemplateWriter) *Error {
 	item := node.args[node.idx%len(node.args)]
 	node.idx++
@@ -42,7 +56,9 @@ func (node *tagCycleNode) Execute(ctx *ExecutionContext, writer TemplateWriter) 
 		t.value = val
 
 		if !t.node.silent {
-			writer.WriteString(val.String())
+			if err := node.write(ctx, writer, item, val); err != nil {
+				return err
+			}
 		}
 	} else {
 		// Regular call
@@ -56,7 +72,9 @@ func (node *tagCycleNode) Execute(ctx *ExecutionContext, writer TemplateWriter) 
 			ctx.Private[node.asName] = cycleValue
 		}
 		if !node.silent {
-			writer.WriteString(val.String())
+			if err := node.write(ctx, writer, item, val); err != nil {
+				return err
+			}
 		}
 	}
 
